@@ -6,7 +6,6 @@ import (
 	"math/big"
 	"time"
 
-	"github.com/btcsuite/btcd/wire/v2"
 
 	"github.com/btcsuite/btcd/chaincfg/v2"
 	"github.com/btcsuite/btcd/chainhash/v2"
@@ -258,26 +257,3 @@ func VH_median_time() {
 	vAssert(less <= n/2 && leq > n/2, "median has rank n/2")
 	vReach("end")
 }
-
-// C09 / C01(3): checkProofOfWork accepts iff 0 < target <= powLimit and (NoPoWCheck or hash <= target).
-//verif:opts reach=accept,reject bigw=320
-func VH_check_pow() {
-	bits := vNondetU32("bits")
-	e := uint(vSplitU32(bits>>24, 256))
-	if e > 34 {
-		vCut("exponent above 34")
-	}
-	limBits := []uint32{0x1d00ffff, 0x207fffff, 0x1e0377ae}[vNondetLen("net", 2)]
-	lim := CompactToBig(limBits)
-	target := CompactToBig(bits)
-	err := checkProofOfWork(vHeaderWithBits(bits), lim, BFNoPoWCheck)
-	ok := target.Sign() > 0 && target.Cmp(lim) <= 0
-	vAssert((err == nil) == ok, "accept iff 0 < target <= powLimit (hash check disabled)")
-	if err == nil {
-		vReach("accept")
-	} else {
-		vReach("reject")
-	}
-}
-
-func vHeaderWithBits(bits uint32) *wire.BlockHeader { return &wire.BlockHeader{Bits: bits} }
